@@ -356,6 +356,63 @@ Example C06_ex_nbt_end : run_flat (r_nbtfield 7 (ReadByte (fun id => if (id =? 0
   = FOk (None, 1%N) [5%N].
 Proof. vm_compute. reflexivity. Qed.
 
+(* ---- phase 4 *)
+From GoMC Require Gen.C05gen Proofs.C06_tie_closed Proofs.C06_skel_more.
+Import C06_tie_closed C06_skel_more.
+(* CLOSED form of the length-prefixed readers: VarInt.ReadFrom is no longer a parameter but its own translation
+   (Gen/C05gen.v), for both outcomes br of the io.ByteReader type assertion *)
+Theorem C06_string_read_closed : forall br fuel old s, all_bytes s ->
+  fmapr inj_bytes (run_flat (C06gen.packet_String_ReadFrom_io (C05gen.packet_VarInt_ReadFrom_io br)) s)
+  = run_flat (read_f fuel TString old) s.
+Proof. intros br fuel old s. exact (closed_String_read br s). Qed.
+Theorem C06_bytearray_read_closed : forall br fuel bs0 sp0 s, all_bytes s ->
+  fmapr inj_slice (run_flat (C06gen.packet_ByteArray_ReadFrom_io (C05gen.packet_VarInt_ReadFrom_io br) (map Z.of_N bs0) (map Z.of_N sp0)) s)
+  = run_flat (read_f fuel TByteArray (VBytes bs0 sp0)) s.
+Proof. intros br fuel bs0 sp0 s. exact (closed_ByteArray_read br bs0 sp0 s). Qed.
+Theorem C06_bitset_read_closed : forall br fuel old (b sp : list Z) s, all_bytes s ->
+  (forall l n rest, run_flat read32 s = FOk (l, n) rest -> (Z.to_nat l <= fuel)%nat) ->
+  fmapr inj_bitset (run_flat (C06gen.packet_BitSet_ReadFrom_io (C05gen.packet_VarInt_ReadFrom_io br) b sp) s)
+  = run_flat (read_f fuel TBitSet old) s.
+Proof. exact closed_BitSet_read. Qed.
+
+(* Marshal / Builder over a heap of buffers (interpretation of the generated skeletons of Marshal,
+   Builder.WriteField, Builder.Packet): Marshal allocates ONE fresh buffer, fills it with the field images in
+   order, leaves every older buffer as it was and returns a view of the new one; the Data of a packet returned
+   by Marshal is not changed by any later sequence of Marshal / Builder.WriteField / Builder.Packet calls; more
+   generally every view a Builder has handed out keeps its bytes *)
+Theorem C06_marshal_heap_is_skeleton : forall h fs,
+  marshal_heap (snd C06gen.skel_Marshal) h None fs = Some ((h ++ [marshal fs])%list, (length h, length (marshal fs))).
+Proof. exact Marshal_heap_is_skel. Qed.
+Theorem C06_marshal_isolated : forall h fs h1 p os h2,
+  marshal_heap (snd C06gen.skel_Marshal) h None fs = Some (h1, p) ->
+  run_ops h1 os = Some h2 ->
+  pdata h1 p = marshal fs /\ pdata h2 p = marshal fs.
+Proof. exact marshal_isolated. Qed.
+Theorem C06_builder_views_stable : forall os h h' p, pvalid h p -> run_ops h os = Some h' -> pdata h' p = pdata h p.
+Proof. exact views_stable. Qed.
+
+(* Tuple against the model's nested pairs; Scan and trailing bytes; NBTField and AllowUnknownFields *)
+Theorem C06_tuple_read_is_skeleton : forall fuel fs s,
+  run_flat (tuple_read fuel (snd C06gen.skel_Tuple_ReadFrom) fs) s
+  = run_flat (read_f fuel (tuple_ty (map fst fs)) (tuple_val (map snd fs))) s.
+Proof. exact Tuple_ReadFrom_is_skel. Qed.
+Theorem C06_tuple_write_is_skeleton : forall fs,
+  tuple_write (snd C06gen.skel_Tuple_WriteTo) fs = Some (wr (tuple_ty (map fst fs)) (tuple_val (map snd fs))).
+Proof. exact Tuple_WriteTo_is_skel. Qed.
+Theorem C06_scan_trailing : forall fuel fs data vs extra,
+  run_flat (scan fuel fs) data = FOk vs [] ->
+  run_flat (scan_interp fuel (snd C06gen.skel_Packet_Scan) fs []) (data ++ extra) = FOk vs extra.
+Proof. exact Packet_Scan_trailing. Qed.
+Theorem C06_nbtfield_allow_is_skeleton : forall eEND A (dl ds : dec A) allow,
+  nbt_read2 eEND A dl ds allow (snd C06gen.skel_NBTField_ReadFrom) (ast20 A) = r_nbtfield eEND (if allow then dl else ds).
+Proof. exact NBTField_ReadFrom_allow_is_skel. Qed.
+
+Example C06_ex_marshal_heap :
+  exists h1 p h2, marshal_heap (snd C06gen.skel_Marshal) [[9%N]] None [(TShort, VZ 258)] = Some (h1, p)
+    /\ run_ops h1 [OMarshal [(TBool, VB true)]; OWriteField 1 [(TByte, VZ 7)]; OPacket 1] = Some h2
+    /\ h2 = [[9]; [1; 2; 7]; [1]]%N /\ pdata h2 p = [1; 2]%N.
+Proof. do 3 eexists. repeat split; vm_compute; reflexivity. Qed.
+
 Print Assumptions C06_roundtrip.
 Print Assumptions C06_layout.
 Print Assumptions C06_position_layout.
@@ -446,3 +503,13 @@ Print Assumptions C06_nbtfield_count.
 Print Assumptions C06_nbtfield_roundtrip.
 Print Assumptions C06_nbtfield_end.
 Print Assumptions C06_nbtfield_write_count.
+Print Assumptions C06_string_read_closed.
+Print Assumptions C06_bytearray_read_closed.
+Print Assumptions C06_bitset_read_closed.
+Print Assumptions C06_marshal_heap_is_skeleton.
+Print Assumptions C06_marshal_isolated.
+Print Assumptions C06_builder_views_stable.
+Print Assumptions C06_tuple_read_is_skeleton.
+Print Assumptions C06_tuple_write_is_skeleton.
+Print Assumptions C06_scan_trailing.
+Print Assumptions C06_nbtfield_allow_is_skeleton.
